@@ -1,0 +1,29 @@
+//! Hooks for the quantity/unit checks: the types of the (private) unit and
+//! quantity modules, and read-only accessors into a `Context`.
+
+pub use crate::arithmetic::{Exponent, Power, Rational};
+pub use crate::number::Number;
+pub use crate::prefix::Prefix;
+pub use crate::quantity::{Quantity, QuantityError};
+pub use crate::unit::{Unit, UnitFactor, UnitIdentifier, UnitKind};
+pub use crate::unit_registry::UnitMetadata;
+
+use crate::Context;
+use crate::value::Value;
+
+/// The unit constant registered under `name` (a one-factor unit whose
+/// identifier carries the unit's direct definition, see `UnitIdentifier::verif_kind`).
+pub fn unit(ctx: &Context, name: &str) -> Option<Unit> {
+    ctx.interpreter.get_defining_unit(name).cloned()
+}
+
+/// The raw, unsimplified value bound to a global name.
+pub fn raw_global(ctx: &Context, name: &str) -> Option<Value> {
+    ctx.interpreter.verif_raw_global(name).cloned()
+}
+
+/// The simplification `Context::interpret` applies to a resulting quantity
+/// (`Quantity::full_simplify_with_registry` with the session's unit registry).
+pub fn simplify(ctx: &Context, q: &Quantity) -> Quantity {
+    ctx.interpreter.verif_simplify(q)
+}
